@@ -119,7 +119,13 @@ func TestVerif_C20(t *testing.T) {
 	defer child.Close()
 	perType := verifkit.N(2, 60)
 	ci := 0
+	spins := map[string]int{}
 	probe := func(typ string, region string, shape string, in []byte) {
+		if spins[typ] >= 4 {
+			// every non-terminating decode costs 5 CPU-seconds; four witnesses per type are enough
+			rep.Event("inputs_skipped_after_four_non_terminating_decodes", 1)
+			return
+		}
 		ans, crash, err := child.Probe(in)
 		rep.Event("inputs_decoded", 1)
 		if err != nil {
@@ -135,6 +141,9 @@ func TestVerif_C20(t *testing.T) {
 			rep.Event("outcome:value", 1)
 		} else if strings.HasPrefix(ans, "ERR") {
 			rep.Event("outcome:error", 1)
+		}
+		if strings.HasPrefix(rule, "no-termination") {
+			spins[typ]++
 		}
 		if rule != "" {
 			h := hex.EncodeToString(in)
